@@ -22,6 +22,7 @@
 import Mhd.Proofs.FramingRefAgree
 import Mhd.Proofs.FramingTotal
 import Mhd.Proofs.FramingTake
+import Mhd.Proofs.FramingReqHead
 
 namespace Mhd.C03
 open Mhd.Framing Mhd.Gen.Framing Mhd.Framing.Framer
@@ -343,6 +344,110 @@ example :
     s1.buf = [108] ∧ s1.off = 2 ∧ s1.out = [.upload [104, 101]] ∧
     s2.buf = [108, 111, 13, 10, 48, 13, 10] ∧ s2.off = 3 ∧ s2.out = [.upload [104, 101, 108]] ∧
     (@idle strictParser 1 (fun _ => .cont 200 false) s2).out.getLast? = some (.upload [104, 101, 108, 108, 111]) := by decide
+
+/-! ## (3c) the composition "C02 parser model + C03 framing model"
+
+  `reqParser lvl rbSize` (`Mhd.Model.FramingReqHead`) runs C02's model of `get_request_line_inner`
+  and then C02's model of `get_req_headers` (field lines, folding, bare CR / LF / NUL policy,
+  whitespace rules, in-place termination, shift-back) on the bytes of the read buffer and reads C03's
+  `Head` off the result: method, raw target, version class, and the field list = the elements of
+  kind `MHD_HEADER_KIND` in list order, names and values as they stand in the final buffer.  The
+  theorems below are therefore no longer about an abstract parser.
+
+  `_partial`: the composition leaves out `process_request_target` (the target is the raw one —
+  no influence on framing), the two checks of the outer `get_request_line` (whitespace in the URI,
+  over-long version string ⇒ refusal) and `parse_cookie_header`; trailers are scanned by the
+  field-line scanner of the header section.  A head the scanners refuse is `refuse` with the
+  scanner's reply (400 / 505 / … or close without reply) ⇒ `head_refusal_no_resync`.  The full
+  statement would use `Req.getRequestLineOuter` + `Req.parseCookieHeader`; missing for it: the fact
+  that `processRequestTarget` commutes with bytes arriving behind the request line (not exported by
+  C02). -/
+
+/-- **A head the parser refuses ⇒ error reply (or close), nothing re-parsed** — every head parser:
+    in `init`, a `refuse x` verdict (forbidden bare CR / LF at that level, obs-fold where not
+    admitted, whitespace before the colon, bad version, NUL …) makes the automaton queue the error
+    reply `x = some code` — connection tainted, `no_reparse` applies — or close without reply
+    (`x = none`); the read buffer is dropped in either case. -/
+theorem head_refusal_no_resync [HeadParser] (lvl : Int) (app : App) (s : St) (x : Option Nat) (hs : s.state = .init)
+    (wf : FlagsWF s) (hp : HeadParser.head s.buf = .refuse x) :
+    idleStep lvl app s = some (refuseWith s x) ∧ (refuseWith s x).buf = [] ∧
+    (∀ st, x = some st → NoReparse (refuseWith s x)) ∧ (x = none → (refuseWith s x).state = .closed) :=
+  refuse_no_resync lvl app s x hs wf hp
+
+/-- **C02's scanners form a lawful head parser**, every level, every read-buffer size: from
+    `Req.rlLaws` / `Req.HSP.hsLaws` (a finished run is unchanged by bytes arriving behind it — C02's
+    split independence), `Req.rl_run_done` (`RLPost`: shape of every accepted request line) and
+    `Req.HSP.run_stable` (every string handed out lies below `read_buffer`). -/
+theorem real_parser_lawful (lvl : Int) (rbSize : Nat) : @LawfulHeadParser (reqParser lvl rbSize) :=
+  reqParser_lawful lvl rbSize
+
+/-- **No desynchronisation, real head parser.**  `pipeline_no_desync` with the head parser
+    instantiated: ∀ level, ∀ read-buffer size, ∀ list of requests whose head bytes C02's scanners
+    accept *at that level* (incl. — where the level admits them — bare LF line ends, folded lines,
+    whitespace before the colon, bare CR / NUL replaced by SP, leading empty lines) and whose field
+    list, as delivered by the scanners, makes `decideBody` announce the body that was rendered,
+    ∀ segmentation: the handler is presented exactly these requests, the connection ends in `init`
+    with an empty buffer. -/
+theorem pipeline_no_desync_real_parser_partial (lvl : Int) (rbSize : Nat) (app : App) (ms : List Msg) (segs : List Bytes)
+    (hok : ∀ m ∈ ms, @MsgOK (reqParser lvl rbSize) lvl m) (happ : ∀ j, j < ms.length → ∃ st, app j = .cont st false)
+    (hsegs : segs.flatten = ms.flatMap Msg.bytes) :
+    framesOf (@runSegs (reqParser lvl rbSize) lvl app segs) = ms.map Msg.seen ∧
+    (@runSegs (reqParser lvl rbSize) lvl app segs).state = .init ∧ (@runSegs (reqParser lvl rbSize) lvl app segs).buf = [] ∧
+    (@runSegs (reqParser lvl rbSize) lvl app segs).nreq = ms.length :=
+  @pipeline_no_desync (reqParser lvl rbSize) (reqParser_lawful lvl rbSize) lvl app ms segs hok happ hsegs
+
+/-- **Agreement with the reference framer, real head parser.**  ∀ level, ∀ read-buffer size: on
+    streams of requests whose heads C02's scanners accept and whose *delivered field list* satisfies
+    RFC 9112 §6.3 (`MsgStrict`), the requests the model presents are exactly the frames of the
+    reference framer.  Where the level lets the real parser accept heads a strict HTTP grammar would
+    not (bare LF, obs-fold, whitespace before the colon …), the reference framer is applied to the
+    **normalised head** — the field list after the parser's unfolding / replacement / trimming, and
+    the head end where the parser found it — and RFC 9112 §6.3 / §7.1 strictly from there on. -/
+theorem frames_agree_reference_real_parser_partial (lvl : Int) (rbSize : Nat) (app : App) (ms : List Msg) (segs : List Bytes)
+    (hms : ∀ m ∈ ms, @MsgStrict (reqParser lvl rbSize) m) (hh : ∀ m ∈ ms, HostOK lvl m.head.http11 m.head.fields)
+    (happ : ∀ j, j < ms.length → ∃ st, app j = .cont st false)
+    (hsegs : segs.flatten = ms.flatMap Msg.bytes) :
+    framesOf (@runSegs (reqParser lvl rbSize) lvl app segs) = (@Framer.frames (reqParser lvl rbSize) lvl segs.flatten).1.map Frame.seen ∧
+    (@Framer.frames (reqParser lvl rbSize) lvl segs.flatten).2 = .incomplete 0 :=
+  @frames_agree_reference (reqParser lvl rbSize) (reqParser_lawful lvl rbSize) lvl app ms segs hms hh happ hsegs
+
+/-- … and split independence / take-pattern independence of the composition, for the record. -/
+theorem split_independence_real_parser_partial (lvl : Int) (rbSize : Nat) (app : App) (segs : List Bytes) :
+    @runSegs (reqParser lvl rbSize) lvl app segs = @runSegs (reqParser lvl rbSize) lvl app [segs.flatten] :=
+  @split_independence (reqParser lvl rbSize) (reqParser_lawful lvl rbSize) lvl app segs
+
+/-- Non-vacuity (kernel evaluation of C02's scanners — a test of the example, not a proof step): at
+    level 0 the head `PUT /x HTTP/1.1 LF  hOsT: HT SP h SP CRLF  Fold: a CRLF SP SP b LF
+    content-LENGTH: 3 CRLF  LF` — bare LF line ends, a folded line, mixed-case names, OWS — is
+    accepted and delivers three fields; with the body `abc` it is a `MsgOK`; at level 1 the same
+    bytes are refused with 400 (bare LF). -/
+example : @MsgOK (reqParser 0 4096) 0
+    ⟨[80, 85, 84, 32, 47, 120, 32, 72, 84, 84, 80, 47, 49, 46, 49, 10, 104, 79, 115, 84, 58, 9, 32, 104, 32, 13, 10,
+      70, 111, 108, 100, 58, 32, 97, 13, 10, 32, 32, 98, 10,
+      99, 111, 110, 116, 101, 110, 116, 45, 76, 69, 78, 71, 84, 72, 58, 32, 51, 13, 10, 10],
+     ⟨[80, 85, 84], [47, 120], true,
+      [⟨[104, 79, 115, 84], [104]⟩, ⟨[70, 111, 108, 100], [97, 32, 32, 32, 32, 98]⟩,
+       ⟨[99, 111, 110, 116, 101, 110, 116, 45, 76, 69, 78, 71, 84, 72], [51]⟩]⟩,
+     .identity [97, 98, 99]⟩ :=
+  @MsgOK.mk (reqParser 0 4096) _ _ (by decide +kernel) ⟨by decide, by decide⟩ (by decide) (Or.inl rfl)
+
+example : reqHead 1 4096 [80, 85, 84, 32, 47, 120, 32, 72, 84, 84, 80, 47, 49, 46, 49, 10, 104, 79, 115, 84, 58, 9, 32, 104, 32, 13, 10,
+      70, 111, 108, 100, 58, 32, 97, 13, 10, 32, 32, 98, 10,
+      99, 111, 110, 116, 101, 110, 116, 45, 76, 69, 78, 71, 84, 72, 58, 32, 51, 13, 10, 10] = .refuse (some 400) := by decide +kernel
+
+/-- … and the connection answers 400 with close and drops the pipelined request behind it -/
+example : (@runSegs (reqParser 1 4096) 1 (fun _ => .cont 200 false)
+    [[80, 85, 84, 32, 47, 120, 32, 72, 84, 84, 80, 47, 49, 46, 49, 10, 104, 58, 49, 13, 10, 13, 10,
+      71, 69, 84, 32, 47, 32, 72, 84, 84, 80, 47, 49, 46, 48, 13, 10, 13, 10]]).out = [.close, .reply 400 true] := by decide +kernel
+
+/-- the whole connection with the real parser on that lenient stream followed by a pipelined
+    `GET / HTTP/1.0` (kernel evaluation): two requests, the first with body `abc` -/
+example : framesOf (@runSegs (reqParser 0 4096) 0 (fun _ => .cont 200 false)
+    [[80, 85, 84, 32, 47, 120, 32, 72, 84, 84, 80, 47, 49, 46, 49, 10, 104, 79, 115, 84, 58, 9, 32, 104, 32, 13, 10,
+      70, 111, 108, 100, 58, 32, 97, 13, 10, 32, 32, 98, 10,
+      99, 111, 110, 116, 101, 110, 116, 45, 76, 69, 78, 71, 84, 72, 58, 32, 51, 13, 10, 10, 97, 98],
+     [99, 71, 69, 84, 32, 47, 32, 72, 84, 84, 80, 47, 49, 46, 48, 13, 10, 13, 10]])
+    = [⟨[80, 85, 84], [47, 120], [97, 98, 99]⟩, ⟨[71, 69, 84], [47], []⟩] := by decide +kernel
 
 /-! ## (4) the key safety theorem on the connection automaton -/
 
